@@ -145,7 +145,7 @@ def eval_case(case, d=None):
         argv.append('-x')
     try:
         core.arm(30)
-        r = clidrv.run_main(argv, order=order)
+        r = clidrv.run_main(argv, order=order, isolate=True)
         core.disarm()
     finally:
         if tmp:
@@ -323,7 +323,7 @@ def run_chunk(chunk):
                          ['-i', '%08X' % DIR[0][2]['eid']], ['-i', '0x%08x' % DIR[13][2]['eid']], ['-i', '12345678'],
                          ['--src', 'BD8D'], ['--src', 'nomatch'], ['--plid', '123']):
                 rc, so, se = clidrv.run_subprocess(['-p', d] + argv)
-                r = clidrv.run_main(['-p', d] + argv)
+                r = clidrv.run_main(['-p', d] + argv, isolate=True)
                 case = {'subprocess': True, 'argv': argv}
                 res.case(nontrivial_key=json.dumps(case), outcome='subproc:%s' % rc)
                 if (rc, so) != (r.status, r.stdout):
